@@ -303,6 +303,10 @@ def run(ctx):
                     ok_store = True
                 if isinstance(s, ast.Assign) and any(is_self_attr(t, '_started') for t in s.targets) and norm(s.value) == 'False':
                     ok_started = True
+    # ... or the flag is computed from `run` itself
+    if not ok_started:
+        ok_started = any(isinstance(st, ast.Assign) and any(is_self_attr(t, '_started') for t in st.targets) and norm(st.value) in ('bool(run)', 'run is True', 'True if run else False')
+                         for st in init.node.body)
     ctx.check('R4', 'a worker that is not run stores the outcome (True, None)', ok_store, 'Worker.__init__', 'not-run-outcome',
               'a worker created with run=False / without target is not given the outcome (has_error False, result None)', where=loc(init, init.node))
     ctx.check('R4', 'a worker that is not run is marked not started', ok_started, 'Worker.__init__', 'not-run-started-flag',
